@@ -759,7 +759,9 @@ def c16_files(seed, tier):
                 if "unlink" not in " ".join(tp.get(tmp, [])):
                     R.fail("temp-file-not-removed", req + " :: " + repr(sorted(tp.get(tmp, []))))
                 R.case("cli-compress-files %s" % ("force" if mode == "force" else "plain"),
-                       "output=%s temp=%s others=%d" % (";".join(sorted(tp.get(outp, []))), ";".join(sorted(tp.get(tmp, []))), len(others)))
+                       "output=%s temp=%s others=%d tmpname=%s" % (
+                           ";".join(sorted(tp.get(outp, []))), ";".join(sorted(tp.get(tmp, []))), len(others),
+                           ",".join(sorted(os.path.basename(q) for q, v in tp.items() if any(x.startswith("unlink") for x in v))) or "-"))
                 os.unlink(log)
     finally:
         W.close()
@@ -938,7 +940,9 @@ def c05_crash(seed, tier):
             src = gen_source(rng, 3000)
             if len(src) < 200:
                 src = rng.randbytes(1500)
-            arch, apath, cfg_tok, hl = make_archive(W, rng, src, compression=rng.choice(["none", "brotli"]))
+            compression = rng.choice(["none", "brotli"])
+            uncompressed = compression == "none"
+            arch, apath, cfg_tok, hl = make_archive(W, rng, src, compression=compression)
             in_place = rng.random() < 0.6
             prior0 = (edit_source(rng, src) if rng.random() < 0.8 else rng.randbytes(900)) if in_place else None
             seed_paths = [W.write(edit_source(rng, src), ".seed")] if rng.random() < 0.4 else []
@@ -978,6 +982,10 @@ def c05_crash(seed, tier):
                         R.fail("kill-did-not-happen(%s)" % cls, req)
                         continue
                     crashed = read_file(outp)
+                    # the model's in-place re-run on exactly what the crash left (uncompressed archives, small)
+                    if crashed is not None and uncompressed and len(arch) + len(crashed) <= 9000 and R.stats.get("model_reruns", 0) < 40:
+                        R.case("clone-ro s - %s %s - -" % (hx(arch), hx(crashed)), "result=ok out=%s" % digest(src))
+                        R.stat("model_reruns")
                     # maybe a second interruption of the re-run
                     if rng.random() < 0.3:
                         k2 = rng.randrange(0, 6)
@@ -990,9 +998,6 @@ def c05_crash(seed, tier):
                         R.fail("re-run-after-interruption-%s" % cls2, req + " :: " + se2.decode(errors="replace")[-200:].replace("\n", "|"))
                     elif final != src:
                         R.fail("re-run-after-interruption-wrong-output", req)
-                    # model: re-run in place on the crashed content must give the source (small cases)
-                    if crashed is not None and len(arch) + len(crashed) <= 9000 and "brotli" not in desc and rng.random() < 0.3 and b"\x03" != b"":
-                        pass
                     os.unlink(outp)
             # write failures: the k-th write fails (ENOSPC) or is torn: never a success report
             for mode in ("fail", "tear"):
